@@ -18,7 +18,13 @@ def _tree_oracle(args):
     prefix, tree = args
     from bluebell.xml import IdGenerator
     el = xmlsx.from_sx(tree)
-    IdGenerator().rewrite_all_eids(el, prefix)
+    g = IdGenerator()
+    if len(repr(tree)) % 2:
+        # the same generator object has numbered another document before (a copy of this one, under another prefix, then once under
+        # this prefix): the convention speaks about the document, not about what the object did earlier
+        g.rewrite_all_eids(copy.deepcopy(el), 'zz')
+        g.rewrite_all_eids(copy.deepcopy(el), prefix)
+    g.rewrite_all_eids(el, prefix)
     return eidlib.c08_convention_oracle(el, prefix) or eidlib.c08_first_asker_oracle(el, prefix)
 
 def _doc_oracle(args):
